@@ -21,6 +21,7 @@ open MpycV MpycV.Util MpycV.Thresha
 
 structure St where
   ops : Option (FieldOps Nat)
+  order : Nat := 0
 
 def showMatrix (rows : List (List Nat)) : String :=
   if rows.isEmpty then "[]" else ";".intercalate (rows.map showNatList)
@@ -51,18 +52,18 @@ def step (st : St) (line : String) : St × String :=
   match tokens line with
   | ["field", "p", p] =>
     match parseNat? p with
-    | some p => if p ≥ 2 then (⟨some (modP p)⟩, "ok") else (st, "bad-op")
+    | some p => if p ≥ 2 then (⟨some (modP p), p⟩, "ok") else (st, "bad-op")
     | none => (st, "bad-op")
   | ["field", "T", q, a, m] =>
     match parseNat? q, parseNatList? a, parseNatList? m with
     | some q, some a, some m =>
-      if q ≥ 2 ∧ a.length = q * q ∧ m.length = q * q then (⟨some (tableOps q a.toArray m.toArray)⟩, "ok")
+      if q ≥ 2 ∧ a.length = q * q ∧ m.length = q * q then (⟨some (tableOps q a.toArray m.toArray), q⟩, "ok")
       else (st, "bad-op")
     | _, _, _ => (st, "bad-op")
   | ["split", t, m, s, c] => (st, withOps st fun o => do
       let t ← parseNat? t; let m ← parseNat? m
       let s ← parseNatList? s; let c ← parseNatList? c
-      pure (showExcept showMatrix (randomSplitE o (s.map o.ofNat) (c.map o.ofNat) t m)))
+      pure (showExcept showMatrix (randomSplitE o st.order (s.map o.ofNat) (c.map o.ofNat) t m)))
   | ["rvec", xs, xr] => (st, withOps st fun o => do
       let xs ← parseNatList? xs; let xr ← parseNat? xr
       pure (showExcept showNatList (recombVecE o (xs.map o.ofNat) (o.ofNat xr))))
